@@ -5,3 +5,4 @@ pub mod netconn;
 pub mod netgen;
 pub mod snapxfer;
 pub mod snapsync;
+pub mod multi;
